@@ -1,6 +1,6 @@
 (* C06 - Configured weights are honoured exactly.  Only statements here; proofs by `exact`. *)
 From Coq Require Import List ZArith String Permutation.
-From MV Require Import Gen.SrcTokens Model.WCluster Model.Edf Proofs.WCluster Proofs.Edf.
+From MV Require Import Gen.SrcTokens Model.WCluster Model.Edf Model.EdfHeap Proofs.WCluster Proofs.Edf Proofs.EdfHeap.
 Import ListNotations.
 Open Scope Z_scope.
 
@@ -60,3 +60,24 @@ Example c06_edf_example :
   exists s0 s1, edf_run (edf_of_weights [1; 2; 128]) [2%nat; 2%nat] = Some s0 /\
                 edf_run s0 [2%nat; 2%nat; 2%nat] = Some s1.
 Proof. eexists; eexists; split; vm_compute; reflexivity. Qed.
+
+(* The Go array heap (edfheap.go: hole-based fixUp/fixDown, Push, Fix) with the scheduler of edf.go on
+   top of it, modelled index for index in Model/EdfHeap.v, REFINES the abstract scheduler: every pick the
+   heap scheduler makes is a deadline-minimal pick of Model/Edf.v, for every weight list and run length. *)
+Theorem c06_heap_refines : forall ws n,
+  exists s', edf_run (edf_of_weights ws) (map fst (hs_run (hs_of_weights ws) n)) = Some s'.
+Proof. exact heap_scheduler_refines_weights. Qed.
+Print Assumptions c06_heap_refines.
+
+(* hence the window bound holds for the sequences the heap scheduler itself produces *)
+Theorem c06_heap_window : forall ws a n, Forall (fun w => 0 < w) ws ->
+  let seq := map fst (hs_run (hs_of_weights ws) (a + n)) in
+  let window := skipn a seq in
+  forall i j wi wj, nth_error ws i = Some wi -> nth_error ws j = Some wj ->
+  Z.abs (count_pick i window * wj - count_pick j window * wi) <= wi + wj.
+Proof. exact heap_scheduler_window. Qed.
+Print Assumptions c06_heap_window.
+
+Example c06_heap_example :
+  map fst (hs_run (hs_of_weights [1; 2; 4]) 7) = [2; 1; 2; 2; 0; 1; 2]%nat.
+Proof. vm_compute. reflexivity. Qed.
